@@ -157,8 +157,31 @@ pub fn combinator_schemas() -> Vec<Value> {
     ]
 }
 
+/// numeric leaf schemas placed where several lexemes are live at once (array item, object value,
+/// anyOf alternative)
+pub fn nested_numeric_schemas(small: bool) -> Vec<Value> {
+    let mut out = vec![];
+    for s in numeric_schemas(small) {
+        let has_mult = s.get("multipleOf").is_some();
+        let two_sided = (s.get("minimum").is_some() || s.get("exclusiveMinimum").is_some()) && (s.get("maximum").is_some() || s.get("exclusiveMaximum").is_some());
+        if !(has_mult || two_sided) {
+            continue;
+        }
+        if small && !has_mult {
+            continue;
+        }
+        out.push(json!({"type": "array", "items": s, "maxItems": 2}));
+        out.push(json!({"type": "object", "properties": {"n": s}, "required": ["n"], "additionalProperties": false}));
+        if has_mult {
+            out.push(json!({"anyOf": [s, {"type": "string", "maxLength": 1}, {"type": "null"}]}));
+        }
+    }
+    out
+}
+
 pub fn all_schemas(small: bool) -> Vec<Value> {
     let mut v = numeric_schemas(small);
+    v.extend(nested_numeric_schemas(small));
     v.extend(string_schemas(small));
     v.extend(array_schemas());
     v.extend(object_schemas());
